@@ -834,3 +834,112 @@ Proof.
   rewrite (qsum_div (fun kc => (snd kc * eps S (fst kc))%Z)).
   fold (wsum (eps S) (counts_of m)). rewrite wsum_counts, counts_total. ring.
 Qed.
+
+(* ------------------------------------------------------------------ exact expectation values = quadratic form *)
+(* built on property C09 (Pauli/MatrixOpsProofs.expectation_form); from here on the Pauli modules are imported and the
+   names of Stats/Estimation.v that they shadow are written qualified *)
+Require Import OQ.Base.Ring OQ.Base.Sums OQ.Base.Bits OQ.Base.Mat OQ.Pauli.Algebra OQ.Pauli.Den OQ.Pauli.Matrix
+               OQ.Pauli.DenProofs OQ.Pauli.MatrixOpsProofs.
+
+Section ExactProofs.
+  Variable K : cring.
+  Add Ring Kexact : (c_ring K).
+  Local Open Scope cr_scope.
+  Variables nzb is_zero : K -> bool.
+  Hypothesis nzb_exact : forall x, nzb x = false -> x = c0.
+  Hypothesis nzb_zero : nzb c0 = false.
+  Variable re : K -> K.
+  Variable C : Type.
+  Variable wavefunction : C -> nat * Vec K.
+
+  (* <v| den(s) |v> on n qubits *)
+  Definition quadratic_form (n : nat) (s : psum K) (v : Vec K) : K :=
+    rsum (2 ^ n) (fun i => cconj (v i) * rsum (2 ^ n) (fun k => sden n s i k * v k)).
+
+  Definition exact_value (t : Estimation.xtask K C) : K :=
+    re (quadratic_form (fst (wavefunction (Estimation.xcirc t))) (Estimation.xop t) (snd (wavefunction (Estimation.xcirc t)))).
+
+  Lemma get_exact_form : forall c (o : psum K), sum_ok (fst (wavefunction c)) o ->
+    Estimation.get_exact_expectation_values nzb is_zero re wavefunction c o
+    = Some (re (quadratic_form (fst (wavefunction c)) o (snd (wavefunction c)))).
+  Proof.
+    intros c o Hok. unfold Estimation.get_exact_expectation_values.
+    rewrite (expectation_form K is_zero nzb nzb_exact nzb_zero _ _ _ Hok). reflexivity.
+  Qed.
+
+  Lemma calculate_exact_form : forall ts : list (Estimation.xtask K C),
+    (forall t, In t ts -> sum_ok (fst (wavefunction (Estimation.xcirc t))) (Estimation.xop t)) ->
+    Estimation.calculate_exact nzb is_zero re wavefunction ts = Some (map (fun t => [exact_value t]) ts).
+  Proof.
+    induction ts as [|t r IH]; intros H; [reflexivity|].
+    cbn [Estimation.calculate_exact map].
+    rewrite get_exact_form by (apply H; left; reflexivity).
+    rewrite IH by (intros t' Ht'; apply H; right; exact Ht'). reflexivity.
+  Qed.
+
+  Lemma calculate_exact_rejects : forall (ts : list (Estimation.xtask K C)) t, In t ts ->
+    fst (wavefunction (Estimation.xcirc t)) < sum_width (Estimation.xop t) ->
+    Estimation.calculate_exact nzb is_zero re wavefunction ts = None.
+  Proof.
+    induction ts as [|t0 r IH]; intros t Hin Hw; [contradiction|].
+    cbn [Estimation.calculate_exact]. destruct Hin as [->|Hin].
+    - unfold Estimation.get_exact_expectation_values. rewrite expectation_rejects by exact Hw. reflexivity.
+    - destruct (Estimation.get_exact_expectation_values nzb is_zero re wavefunction (Estimation.xcirc t0) (Estimation.xop t0)); [|reflexivity].
+      rewrite (IH t Hin Hw). reflexivity.
+  Qed.
+
+  (* ---- computational basis states, Ising operators *)
+  Definition basis_vec (x : nat) : Vec K := fun i => if Nat.eqb i x then c1 else c0.
+  Definition ising_term (t : term K) : Prop := forall it, In it (tops t) -> snd it = PZ.
+
+  Lemma quadratic_form_basis : forall n (s : psum K) x, x < 2 ^ n ->
+    quadratic_form n s (basis_vec x) = sden n s x x.
+  Proof.
+    intros n s x Hx. unfold quadratic_form, basis_vec.
+    assert (Hin : forall i, rsum (2 ^ n) (fun k => sden n s i k * (if Nat.eqb k x then c1 else c0)) = sden n s i x).
+    { intros i. rewrite (rsum_ext K (2 ^ n) _ (fun k => if Nat.eqb k x then sden n s i k else c0)).
+      - apply (rsum_delta K (2 ^ n) x (fun k => sden n s i k) Hx).
+      - intros k _. destruct (Nat.eqb k x); ring. }
+    rewrite (rsum_ext K (2 ^ n) _ (fun i => if Nat.eqb i x then sden n s i x else c0)).
+    - apply (rsum_delta K (2 ^ n) x (fun i => sden n s i x) Hx).
+    - intros i _. rewrite Hin. destruct (Nat.eqb i x); [rewrite conj_1; ring|rewrite conj_0; ring].
+  Qed.
+
+  Lemma of_Z_opp : forall z, @of_Z K (- z)%Z = - @of_Z K z.
+  Proof. intros [|p|p]; cbn [Z.opp of_Z]; ring. Qed.
+
+  Lemma of_Z_eps : forall (l : ops) (bs : list bool),
+    @of_Z K (Estimation.eps (keys l) bs)
+    = lprod l (fun it => if nth (fst it) bs false then - c1 else c1).
+  Proof.
+    intros l bs. unfold Estimation.eps, keys. induction l as [|[q a] r IH]; [reflexivity|].
+    cbn [map fst lprod]. change (Estimation.zprod (Estimation.sgn bs q :: map (Estimation.sgn bs) (map fst r)))
+      with (Estimation.sgn bs q * Estimation.zprod (map (Estimation.sgn bs) (map fst r)))%Z.
+    unfold Estimation.sgn at 1. destruct (nth q bs false).
+    - rewrite <- IH. replace (-1 * Estimation.zprod (map (Estimation.sgn bs) (map fst r)))%Z
+        with (- Estimation.zprod (map (Estimation.sgn bs) (map fst r)))%Z by lia.
+      rewrite of_Z_opp. ring.
+    - rewrite <- IH. rewrite Z.mul_1_l. ring.
+  Qed.
+
+  Lemma den_basis_ising : forall n (t : term K) x, term_ok n t -> ising_term t ->
+    den n t x x = coef t * @of_Z K (Estimation.eps (keys (tops t)) (bits n x)).
+  Proof.
+    intros n t x [Hs Hf] Hz. unfold den, pprod. f_equal.
+    rewrite of_Z_eps.
+    rewrite <- (lprod_items K n (tops t) (fun q o => sigma o (bitq n q x) (bitq n q x))).
+    - apply lprod_ext. intros [q a] Hin. rewrite (Hz _ Hin). cbn [fst snd sigma]. unfold bitq.
+      rewrite Bool.eqb_reflx. reflexivity.
+    - intros q. cbn [sigma]. rewrite Bool.eqb_reflx. reflexivity.
+    - apply ops_sorted_nodup. exact Hs.
+    - exact Hf.
+  Qed.
+
+  Lemma quadratic_form_basis_ising : forall n (s : psum K) x, x < 2 ^ n -> sum_ok n s -> Forall ising_term s ->
+    quadratic_form n s (basis_vec x)
+    = lsum s (fun t => coef t * @of_Z K (Estimation.eps (keys (tops t)) (bits n x))).
+  Proof.
+    intros n s x Hx Hok Hz. rewrite quadratic_form_basis by exact Hx. unfold sden.
+    apply lsum_ext. intros t Ht. unfold sum_ok in Hok. rewrite Forall_forall in Hok, Hz. apply den_basis_ising; auto.
+  Qed.
+End ExactProofs.
